@@ -316,7 +316,8 @@ pub fn check_graph(g: &GraphSpec, l: &mut Local) -> Check {
                     (Fault::MissingParent, tera::ErrorKind::MissingParent { .. }) => true,
                     (Fault::ExtendsCycle, tera::ErrorKind::CircularExtend { .. }) => true,
                     (Fault::IncludeCycle, tera::ErrorKind::CircularInclude { .. }) => true,
-                    (Fault::MissingInclude, _) => e.to_string().contains("Unknown template"),
+                    // no dedicated kind exists for a dangling include: anything but the three other kinds (the wording of the message is not pinned)
+                    (Fault::MissingInclude, k) => !matches!(k, tera::ErrorKind::MissingParent { .. } | tera::ErrorKind::CircularExtend { .. } | tera::ErrorKind::CircularInclude { .. }),
                     _ => false,
                 };
                 if !ok {
